@@ -26,8 +26,12 @@ THEOREMS = [C + t for t in [
     "UrcuVerif.Lfht.Resize.invL_step", "UrcuVerif.Lfht.Resize.mu_decreases",
     "UrcuVerif.Lfht.Resize.min_table_size_eq", "UrcuVerif.Lfht.Resize.chain_len_target_eq",
     "UrcuVerif.Lfht.Resize.min_partition_eq", "UrcuVerif.Lfht.Mm.max_chunk_table_eq"]
-UNPROVED = ["resize_preserves_contents (nodes found before are found after and during a resize): not a statement about this "
-            "component's model; sequential part = C08, concurrent lookups = C05; here checked by the harness oracles only"]
+UNPROVED = ["(none about this component's model) 'every node present before a resize is found afterwards / during it' is proved on the "
+            "sibling models and audited here as well: sequentially UrcuVerif.Lfht.Seq.resize_preserves_contents (C08), concurrently "
+            "UrcuVerif.Lfht.Conc.resident_found / resident_found_traversal / grow_before_publish / reclaim_safe (C05, C07); the tie of "
+            "the concurrent part is the shared lfht batch (concurrent_part)"]
+SIBLING = ["UrcuVerif.Lfht.Seq.resize_preserves_contents", "UrcuVerif.Lfht.Conc.resident_found", "UrcuVerif.Lfht.Conc.resident_found_traversal",
+           "UrcuVerif.Lfht.Conc.grow_before_publish", "UrcuVerif.Lfht.Conc.reclaim_safe"]
 AUDIT = ["UrcuVerif.Lfht.Resize", "UrcuVerif.Lfht.Mm", "UrcuVerif.Lfht.ResizeLemmas", "UrcuVerif.Lfht.ResizeLemmasTs",
          "UrcuVerif.Lfht.ResizeLemmasMm", "UrcuVerif.Props.C09", "UrcuVerif.Machine"]
 TRUSTED = [
@@ -90,7 +94,9 @@ def _run_seq(chk):
     chk.assumptions = TRUSTED
     chk.cov["trusted_base"] = TRUSTED
     chk.cov["unproved_full_statements"] = UNPROVED
-    proved = chk.proof_part(["UrcuVerif.Props.C09", "drv_lfhtresize"], "UrcuVerif.Props.C09", THEOREMS, AUDIT, unproved=UNPROVED)
+    proved = chk.proof_part(["UrcuVerif.Props.C09", "UrcuVerif.Props.C08", "UrcuVerif.Props.C05", "UrcuVerif.Props.C07", "drv_lfhtresize"],
+                            ["UrcuVerif.Props.C09", "UrcuVerif.Props.C08", "UrcuVerif.Props.C05", "UrcuVerif.Props.C07"],
+                            THEOREMS + SIBLING, AUDIT, unproved=UNPROVED)
     ok, log = build()
     if not ok:
         chk.fail("build", {"theorem": "harness/scen/lfht_resize.c does not compile against /repo", "lean_error": log[-2000:]}, nofail=True)
